@@ -408,6 +408,9 @@ class SchedThread:
             self._st.thread.join(2.0 if timeout is None else timeout)
             return
         s.yield_point(st)
+        if timeout is not None and self._st.status != "done":
+            # virtual time: the target thread was busy / not scheduled for longer than the finite time-out
+            return
         while self._st.status != "done":
             s.yield_point(st, lambda: self._st.status == "done")
 
